@@ -720,6 +720,21 @@ impl<'a> GeneratorState<'a> {
                                 }
                             }
                         }
+                        // A 16 bits wide destination that is not shifted in place above (a count of 8 or more,
+                        // an element reached through Y) would only have its low byte written
+                        let wide = match &left {
+                            ExprType::Absolute(varname, eight_bits, _) => {
+                                let v = self.compiler_state.get_variable(varname);
+                                (v.var_type == VariableType::Short || v.var_type == VariableType::ShortPtr) && !eight_bits
+                            }
+                            ExprType::AbsoluteX(varname) | ExprType::AbsoluteY(varname) => {
+                                self.compiler_state.get_variable(varname).var_type == VariableType::ShortPtr
+                            }
+                            _ => false,
+                        };
+                        if wide {
+                            return Err(self.compiler_state.syntax_error("16 bits shift assignment not implemented for this operand or count. Please use an intermediate variable", pos));
+                        }
                     }
                     let newright = self.generate_shift(&left, op, &right, pos, high_byte)?;
                     self.generate_assign(&left, &newright, pos, false)
